@@ -178,8 +178,8 @@ func evalC05(c *Ctx, cs *Case) {
 		for si, st := range steps {
 			if st.add {
 				// a new last child under the root and under the root's former last child
-				g.Add("zz_new")
-				cur.Kids = append(cur.Kids, &model.Node{Name: "zz_new"})
+				g.Add("zz_new").Add("zz_kid") // a new node that is itself a parent
+				cur.Kids = append(cur.Kids, &model.Node{Name: "zz_new", Kids: []*model.Node{{Name: "zz_kid"}}})
 				if len(cur.Kids) > 1 {
 					g.Add(cur.Kids[len(cur.Kids)-2].Name).Add("zz_deep")
 					k := cur.Kids[len(cur.Kids)-2]
